@@ -1,4 +1,5 @@
 import Proofs.Supply
+import Proofs.Events
 /-
   C04 — Supply conservation: value is created or destroyed only by protocol events.
 -/
@@ -142,9 +143,55 @@ theorem rejected_batch_supply_unchanged {P : Params} {h : Nat} {e : TxEntry} {ra
     (hr : applyBatch P h e rates avgs s = .ok v s') (hv : v ≠ .apply) (t : Ticker) : s'.supply t = s.supply t := by
   rw [applyBatch_noop hr hv]
 
+/-- **A transfer, for every address and asset.** After an executed transfer the balance of EVERY
+    address `a` in EVERY asset `x` is its balance before, minus the input amount when `a` is the
+    sender and `x` the transferred asset, plus the outputs naming `a` in that asset (outputs to the
+    burn address are not credited). Every unit debited from the sender is credited to the named
+    recipients, and nobody else's balance changes. (`Outcome`: the only other way the step can end is
+    an SQL-level failure of the block, never a partial application.) -/
+theorem transfer_moves_value_exactly (P : Params) (h : Nat) (hash : Hash) (rates avgs : Option TMap) (idx : Nat) (t : Tx)
+    (htr : t.transfers ≠ []) (s : DB) (hf : (t.inAmount : Int) ≤ s.bal t.inAddr t.inType) :
+    Outcome (recordTx P h hash rates avgs idx t s)
+      (fun _ s' => ∀ a x, s'.bal a x = s.bal a x
+        - (if a = t.inAddr ∧ x = t.inType then (t.inAmount : Int) else 0)
+        + (if x = t.inType then creditedTo P h a t.transfers else 0)) :=
+  transfer_exact P h hash rates avgs idx t htr s hf
+
+/-- nobody else: an address that is neither the sender nor named in an output keeps every balance -/
+theorem transfer_leaves_bystanders_alone (P : Params) (h : Nat) (a : Addr) (t : Tx)
+    (hns : a ≠ t.inAddr) (hno : ∀ tr ∈ t.transfers, tr.addr ≠ a) (x : Ticker) :
+    (- (if a = t.inAddr ∧ x = t.inType then (t.inAmount : Int) else 0)
+      + (if x = t.inType then creditedTo P h a t.transfers else 0)) = 0 := by
+  have hb : backTo a t.transfers = 0 := by
+    unfold backTo
+    have : t.transfers.filter (·.addr == a) = [] := by
+      apply List.filter_eq_nil_iff.2
+      intro tr htr
+      simpa using hno tr htr
+    rw [this]; rfl
+  unfold creditedTo
+  simp [hns, hb]
+
+/-- **Mining and staking-record rewards create exactly the rewards decided**: for every address
+    and asset, applying the graded OPR (SPR) block changes only the PEG balance of the payout
+    addresses of the winning records, by exactly their payouts. -/
+theorem opr_rewards_create_exactly (P : Params) (oh ts : Int) (ws : List OprW) (s : DB) :
+    Outcome (applyGradedOPR P oh ts ws s)
+      (fun _ s' => ∀ a x, s'.bal a x = s.bal a x + (if x = tPEG then oprCredit a ws else 0)) :=
+  oprRewards_exact P oh ts ws s
+
+theorem spr_rewards_create_exactly (P : Params) (oh ts : Int) (ws : List SprW) (s : DB) :
+    Outcome (applyGradedSPR P oh ts ws s)
+      (fun _ s' => ∀ a x, s'.bal a x = s.bal a x + (if x = tPEG then sprCredit a ws else 0)) :=
+  sprRewards_exact P oh ts ws s
+
 end Pegnet.C04
 
 #print axioms Pegnet.C04.credit_transfers_supply
 #print axioms Pegnet.C04.transfer_conserves
 #print axioms Pegnet.C04.plain_transfer_supply_unchanged
 #print axioms Pegnet.C04.rejected_batch_supply_unchanged
+#print axioms Pegnet.C04.transfer_moves_value_exactly
+#print axioms Pegnet.C04.transfer_leaves_bystanders_alone
+#print axioms Pegnet.C04.opr_rewards_create_exactly
+#print axioms Pegnet.C04.spr_rewards_create_exactly
